@@ -70,6 +70,19 @@ CHECKS = {
         note=("Trusted base: TLC; sys.settrace line stepping of real threads and the one-handle-per-iteration event loop (lib/dispatch.py); "
               "a source line is the explored unit of atomicity; bounded number of preemptions; CPython atomicity of deque/Lock operations."),
     ),
+    "C08": dict(
+        category="model_checking",
+        engine="tlc-guardexpr",
+        text=("GuardExpr.tla transcribes the guard semantics (typed values, Eval with short-circuit/operand values/chained comparisons/read order, "
+              "Enabled for cond/unless lists, Render by Python's precedence, a precedence-climbing Parse, RoundTrip, WellFormed); TLC evaluates "
+              "these operators for every case (all expressions with <=3 leaves exhaustively, random ASTs of depth<=3, guard lists, token "
+              "mutations) and the harness runs every case through real machines in every spelling/whitespace mode with names that contain "
+              "`v`/keywords, provided by 7 provider kinds, as cond= and unless=: fired-or-not, first-read order and instantiation-time "
+              "rejection must equal the spec. The spec itself is self-tested against Python's eval."),
+        design_ref="DESIGN.md 5 C08",
+        technique="TLA+ transcription of the guard grammar/semantics evaluated by TLC as oracle over an enumerated case space; differential execution on the implementation",
+        note="Trusted base: TLC evaluating GuardExpr.tla; the token->text concretiser (lib/checks/c08.py), itself cross-checked through Python's eval; exhaustive only for the stated small scope.",
+    ),
     "C10": dict(
         category="model_checking",
         text=("The spec keeps a single `cur` per instance (the model field) and derives every projection from it; TLC explores outside writes "
@@ -170,6 +183,8 @@ def main():
             {"name": "tlc-system", "path": "/verif/spec/System.tla",
              "serves_properties": [p for p in CHECKS if CHECKS[p].get("engine", "tlc-system") == "tlc-system"],
              "kind_free_text": "explicit TLA+ specification (Engine.tla/System.tla), TLC exhaustive model checking (MC_System), batched TLC trace validation of executions recorded from the real library (Trace_System)"},
+            {"name": "tlc-guardexpr", "path": "/verif/spec/GuardExpr.tla", "serves_properties": ["C08"],
+             "kind_free_text": "TLA+ transcription of guard expressions (evaluation, rendering, parsing) evaluated by TLC over harness-enumerated cases (Eval_GuardExpr)"},
             {"name": "tlc-dispatch", "path": "/verif/spec/Dispatch.tla",
              "serves_properties": ["C06"],
              "kind_free_text": "explicit TLA+ specification of the concurrent dispatch protocol, TLC exhaustive model checking, TLC trace validation of systematically scheduled real threads / asyncio tasks (Trace_Dispatch)"},
